@@ -408,7 +408,9 @@ class PDFStream(PDFObject):
             elif f in LITERALS_RUNLENGTH_DECODE:
                 data = rldecode(data)
             elif f in LITERALS_CCITTFAX_DECODE:
-                data = ccittfaxdecode(data, params)
+                # the entries of the parameter dictionary may be indirect objects
+                ccitt_params = {k: resolve1(v) for (k, v) in params.items()}
+                data = ccittfaxdecode(data, ccitt_params)
             elif f in LITERALS_DCT_DECODE:
                 # This is probably a JPG stream
                 # it does not need to be decoded twice.
